@@ -101,9 +101,9 @@ def same(a, b, opts=None):
     opts = opts or {}
     ta, tb = a[0], b[0]
     if ta == 'numval':
-        if tb != 'num':
+        if tb not in ('num', 'numval'):
             return False
-        x, y = a[1], numtext_value(b[1])
+        x, y = a[1], (numtext_value(b[1]) if tb == 'num' else b[1])
         if x != x or y != y:
             ok = (x != x) and (y != y)
         elif opts.get('six_decimals') and x != y and abs(x) != float('inf') and abs(y) != float('inf'):
